@@ -10,6 +10,7 @@ package props
 import (
 	"bytes"
 	"encoding/json"
+	"fmt"
 	"os"
 	"path/filepath"
 	"strings"
@@ -20,6 +21,34 @@ import (
 
 	"verif/ev"
 )
+
+// harnessSafe keeps a panic of the harness itself (a generator handed an impossible range, an
+// oracle indexing out of bounds) from being taken for a crash of the code under test: library
+// calls run under guard(), which turns their panics into recorded failures, so whatever still
+// propagates here is either rapid's own control flow (passed on) or a harness defect. The latter
+// is written to $VERIF_HARNESS_PANIC, which makes the driver report INCONCLUSIVE, and the input is
+// dropped.
+func harnessSafe(prop func(*rapid.T)) func(*rapid.T) {
+	return func(t *rapid.T) {
+		defer func() {
+			r := recover()
+			if r == nil {
+				return
+			}
+			switch fmt.Sprintf("%T", r) {
+			case "rapid.stopTest", "rapid.invalidData":
+				panic(r)
+			}
+			if p := os.Getenv("VERIF_HARNESS_PANIC"); p != "" {
+				if f, err := os.OpenFile(p, os.O_APPEND|os.O_CREATE|os.O_WRONLY, 0o644); err == nil {
+					fmt.Fprintf(f, "%v\n", r)
+					f.Close()
+				}
+			}
+		}()
+		prop(t)
+	}
+}
 
 func seedBitStreams(f *testing.F) {
 	f.Add([]byte{})
@@ -35,52 +64,52 @@ func seedBitStreams(f *testing.F) {
 
 func FuzzC01(f *testing.F) {
 	seedBitStreams(f)
-	f.Fuzz(rapid.MakeFuzz(propC01(ev.For("C01"))))
+	f.Fuzz(rapid.MakeFuzz(harnessSafe(propC01(ev.For("C01")))))
 }
 
 func FuzzC05(f *testing.F) {
 	seedBitStreams(f)
-	f.Fuzz(rapid.MakeFuzz(propC05(ev.For("C05"))))
+	f.Fuzz(rapid.MakeFuzz(harnessSafe(propC05(ev.For("C05")))))
 }
 
 func FuzzC10(f *testing.F) {
 	seedBitStreams(f)
-	f.Fuzz(rapid.MakeFuzz(propC10(ev.For("C10"))))
+	f.Fuzz(rapid.MakeFuzz(harnessSafe(propC10(ev.For("C10")))))
 }
 
 func FuzzC02(f *testing.F) {
 	seedBitStreams(f)
-	f.Fuzz(rapid.MakeFuzz(propC02(ev.For("C02"))))
+	f.Fuzz(rapid.MakeFuzz(harnessSafe(propC02(ev.For("C02")))))
 }
 
 func FuzzC03(f *testing.F) {
 	seedBitStreams(f)
-	f.Fuzz(rapid.MakeFuzz(propC03(ev.For("C03"))))
+	f.Fuzz(rapid.MakeFuzz(harnessSafe(propC03(ev.For("C03")))))
 }
 
 func FuzzC06(f *testing.F) {
 	seedBitStreams(f)
-	f.Fuzz(rapid.MakeFuzz(propC06(ev.For("C06"))))
+	f.Fuzz(rapid.MakeFuzz(harnessSafe(propC06(ev.For("C06")))))
 }
 
 func FuzzC07(f *testing.F) {
 	seedBitStreams(f)
-	f.Fuzz(rapid.MakeFuzz(propC07(ev.For("C07"))))
+	f.Fuzz(rapid.MakeFuzz(harnessSafe(propC07(ev.For("C07")))))
 }
 
 func FuzzC15(f *testing.F) {
 	seedBitStreams(f)
-	f.Fuzz(rapid.MakeFuzz(propC15(ev.For("C15"))))
+	f.Fuzz(rapid.MakeFuzz(harnessSafe(propC15(ev.For("C15")))))
 }
 
 func FuzzC17(f *testing.F) {
 	seedBitStreams(f)
-	f.Fuzz(rapid.MakeFuzz(propC17(ev.For("C17"))))
+	f.Fuzz(rapid.MakeFuzz(harnessSafe(propC17(ev.For("C17")))))
 }
 
 func FuzzC18(f *testing.F) {
 	seedBitStreams(f)
-	f.Fuzz(rapid.MakeFuzz(propC18(ev.For("C18"))))
+	f.Fuzz(rapid.MakeFuzz(harnessSafe(propC18(ev.For("C18")))))
 }
 
 // FuzzBytes: arbitrary bytes into Unmarshal. Oracles: no panic anywhere; if Unmarshal accepts,
